@@ -837,6 +837,30 @@ Section C03.
     exists id, k'. auto.
   Qed.
 
+  (* signing with a key set (given directly or RETURNED BY A CALLABLE: a callable key source
+     is its result, and guess_key is applied to it with the same use_random = True) and no
+     kid in the header: a key of the set is picked and its kid is stored *)
+  Lemma guess_key_sign_set_random ks h k okid :
+    (forall l x, choose l = Some x -> In x l) -> dget h s_kid = None ->
+    guess_key_sign choose (KSet ks) h = Ok (k, okid) ->
+    In k ks /\ exists id, okid = Some id /\ k_kid k = Some id.
+  Proof.
+    intros CI NK G. unfold guess_key_sign in G. rewrite NK in G. cbn [py_truth negb] in G.
+    bstep G as alg GA. destruct (choose (pick_candidates ks alg)) as [k0|] eqn:CH; [|discriminate].
+    destruct (k_kid k0) as [id|] eqn:KK; [|discriminate]. inversion G; subst k0 okid.
+    split; [eapply pick_candidates_incl, CI; exact CH|]. eauto.
+  Qed.
+
+  (* ... and it never fails with InvalidKeyIdError: with a candidate of the right type it succeeds *)
+  Lemma guess_key_sign_set_succeeds ks h alg k id :
+    dget h s_kid = None -> py_getitem_str (PDict h) s_alg = Ok alg ->
+    choose (pick_candidates ks alg) = Some k -> k_kid k = Some id ->
+    guess_key_sign choose (KSet ks) h = Ok (k, Some id).
+  Proof.
+    intros NK GA CH KK. unfold guess_key_sign. rewrite NK. cbn [py_truth negb]. rewrite GA. cbn [bind].
+    rewrite CH, KK. reflexivity.
+  Qed.
+
   Lemma key_ok_set rg ks ks' h :
     (forall l x, choose l = Some x -> In x l) ->
     Forall2 corresponds_kid ks ks' -> NoDup (map k_kid ks) ->
